@@ -504,3 +504,18 @@ func vBreakLineOrphansWidows() (int, []string) {
 //@   call resolveOnePercentage#2 assert[right] arg0 == box.Style.GetRight() && arg2 == containingBlock[0]
 //@   call resolveOnePercentage#3 assert[top] arg0 == box.Style.GetTop() && arg2 == containingBlock[1]
 //@   call resolveOnePercentage#4 assert[bottom] arg0 == box.Style.GetBottom() && arg2 == containingBlock[1]
+
+// css-text-3 §7.1 text-align: justify: the free width of the line is shared equally among its spaces
+// (spacing x number of spaces == the width to absorb); every box after a stretched space is shifted by
+// the advance accumulated so far and each text box grows by what its own spaces absorb.
+//@ func justifyLine
+//@   props C11
+//@   modifies anything
+//@   call addWordSpacing#1 assert[equal-shares] arg1 == line && arg2 * real(nbSpaces) == extraWidth && arg3 == 0
+//@ func addWordSpacing
+//@   props C11
+//@   modifies anything
+//@   unclaimed call-*-pre* "box accessors on a laid-out line"
+//@   call SetJustification#1 assert arg1 == justificationSpacing
+//@   call addWordSpacing#1 assert[advance-threaded] arg1 == child && arg2 == justificationSpacing && arg3 == xAdvance
+//@   call Translate#1 assert[atomic-shifted] arg1 == box_ && arg2 == xAdvance && arg3 == 0
